@@ -336,12 +336,16 @@ def run(tier):
     for idx, reason in drifts:
         si, oi = back[idx - 1]
         verdict.add_drift(f"{reason} at {scripts[si]['id']} op {oi} ({events[idx - 1]['name'] or events[idx - 1]['k']})")
+    # cross-subsystem walks judged against the umbrella specification (Session.tla); this property's clauses only
+    import sessionwalk
+    sw = sessionwalk.stage(PID, wd, tier, verdict)
     rc = verdict.finish(wd)
     moved = sum(1 for e in events if e["k"] == "cmd" and e["after"] != e["before"])
     kinds = {}
     for e in events:
         kinds[e["cls"] or e["k"]] = kinds.get(e["cls"] or e["k"], 0) + 1
     C.write_evidence(PID, tier, "model_checking", {
+        **sw,
         "states": m1["distinct"], "transitions": m1["states"],
         "traces_validated_against_impl": len(scripts),
         "samples": [{"id": scripts[0]["id"], "events": [{k: e[k] for k in ("k", "cls", "name", "res", "before", "after", "navOk", "depthP")}
